@@ -1,6 +1,7 @@
 package harness
 
 import (
+	"time"
 	"context"
 	"encoding/json"
 	"fmt"
@@ -52,6 +53,7 @@ type MemoCase struct {
 	Preempt int        `json:"preempt"`
 	PMean   int        `json:"pmean"`
 	Tape    []uint32   `json:"tape,omitempty"`
+	SlowWriteS int     `json:"slowwrites,omitempty"` // concurrent configuration: the wrapped driver takes this many simulated seconds per write
 	Faulty  bool       `json:"faulty,omitempty"` // sequential configuration over a wrapped driver with transient failures (simstore between memoizer and memory)
 	fine    bool       // generation only: sub-second windows over triples anchored within one second
 }
@@ -254,6 +256,9 @@ func (h *memoHarness) Gen(r *Rand, tier string, clean bool) any {
 			}
 		}
 	}
+	if r.Chance(0.15) {
+		c.SlowWriteS = []int{1, 6, 20}[r.Intn(3)] // a wrapped driver whose writes are slow, not failing
+	}
 	c.Preempt = r.Intn(5)
 	c.PMean = []int{10, 30, 80}[r.Intn(3)]
 	return c
@@ -364,6 +369,10 @@ func memoSetup(ctx context.Context, c *MemoCase, uni []*triple.Triple) (inner st
 	var wrapped storage.Store = in
 	if c.Faulty {
 		ss = newSimStore(in, simStoreCfg{})
+		wrapped = ss
+	}
+	if c.SlowWriteS > 0 && len(c.Clients) > 0 {
+		ss = newSimStore(in, simStoreCfg{SlowWrites: time.Duration(c.SlowWriteS) * time.Second, Transparent: true})
 		wrapped = ss
 	}
 	st := memoization.New(wrapped)
